@@ -62,7 +62,7 @@ func c01Alphabet() []dbx.Txn {
 		"R 11.wset:=all", "R 11.wopt:=a2", "R 11.wmap insert k1:a1", "del PR p1 + R r1.sset:=[]", "R r1.sset-=a1 + del PR p1", "del PR p1",
 		"R r1.cnt:=5", "R r1.cnt:=0", "R r1.cnt+=1", "R r1.cnt-=1", "R r1.cnt*=0", "R r1.name:=\"\"", "rename N1 a1", "N1 a1.next:=[]", "ins N2 b1 + N1 a1.next:=",
 		"R r1.smap[k1] changed then removed + cnt:=8", "R r1.kmap[a1] changed then removed + cnt:=8", "R r1.wmap[k1] removed then re-added as a2 + cnt:=8", "R r1.wmap[k1] changed and changed back + cnt:=8", "R r1.wset a1 removed then added back + cnt:=8",
-		"ins N3 c1->c2 + R 11.s3:=c1 w3:=[c1,c2]",
+		"ins N3 c1->c2 + R 11.s3:=c1 w3:=[c1,c2]", "ins PR p1 name=tmp then name:=\"\"", "ins R 15 name,cnt,wset then back to defaults except imm",
 		"ins R2 q1 + new N1 a1", "del R2 q1", "ins N3 c1<->c2 + R 11.s3:=c1", "R 11.s3:=[]", "del all N1",
 	} {
 		want[n] = true
